@@ -292,6 +292,34 @@ Proof.
   rewrite <- (merge_specs_agree (k_d c) (A c) (k_size c) Hd ltac:(lia) Hwf).
   apply andb_true_iff in Hm. destruct Hm as [Hm5 Hm6]. rewrite Hm5, Hm6. reflexivity.
 Qed.
+(* jaccard / forbes on a genome with several contigs *)
+Lemma on_contig_wf sizes r l : forallb (genome_row_ok sizes) l = true -> wf_set (on_contig r l) (gsize sizes r).
+Proof.
+  intros H i Hi. unfold on_contig in Hi. apply in_map_iff in Hi. destruct Hi as [t [E Ht]]. subst i.
+  apply filter_In in Ht. destruct Ht as [Ht Hr]. apply Z.eqb_eq in Hr.
+  rewrite forallb_forall in H. specialize (H t Ht). unfold genome_row_ok in H. split_andb.
+  unfold untag. cbn [fst snd]. rewrite !Z.leb_le in *. rewrite <- Hr. lia.
+Qed.
+Lemma genome_of_ok : forallb (fun z => 1 <=? z) (k_sizes c) = true -> forallb (genome_row_ok (k_sizes c)) (k_a c) = true ->
+  forallb (genome_row_ok (k_sizes c)) (k_b c) = true -> genome_ok_prop (genome_of c).
+Proof.
+  intros Hs Ha Hb size a b Hin. unfold genome_of in Hin. apply in_map_iff in Hin. destruct Hin as [r [E Hr]].
+  injection E as E1 E2 E3. subst size a b. split; [|split; apply on_contig_wf; assumption].
+  unfold gsize, nthd. destruct (nth_in_or_default (Z.to_nat r) (k_sizes c) 0) as [Hi|E]; [|rewrite E; lia].
+  apply (sizes_nonneg _ Hs). exact Hi.
+Qed.
+Lemma link_jaccard_genome : k_op c = 19 -> spec_ok c = true.
+Proof.
+  intros Hop. unfold spec_ok; rewrite Hdom; cbn [andb]; unfold model_ok in Hm; unfold domain in Hdom;
+  rewrite Hop in Hm, Hdom |- *; cbv beta iota zeta in Hm, Hdom |- *. split_andb.
+  rewrite jaccard_genome_is_per_base in Hm; [exact Hm|apply genome_of_ok; assumption].
+Qed.
+Lemma link_forbes_genome : k_op c = 20 -> spec_ok c = true.
+Proof.
+  intros Hop. unfold spec_ok; rewrite Hdom; cbn [andb]; unfold model_ok in Hm; unfold domain in Hdom;
+  rewrite Hop in Hm, Hdom |- *; cbv beta iota zeta in Hm, Hdom |- *. split_andb.
+  rewrite forbes_genome_is_per_base in Hm; [exact Hm|apply genome_of_ok; assumption].
+Qed.
 End Link.
 
 (* ---------- every case class at once ---------- *)
@@ -307,7 +335,8 @@ Proof.
     | apply (link_sort_geom c Hdom Hm Hop) | apply (link_count_overlap c Hdom Hm Hop) | apply (link_intersect c Hdom Hm Hop)
     | apply (link_unique_intersect c Hdom Hm Hop) | apply (link_clip c Hdom Hm Hop) | apply (link_extend c Hdom Hm Hop)
     | apply (link_jaccard_geom c Hdom Hm Hop) | apply (link_geom_pileup c Hdom Hm Hop) | apply (link_geom_mask c Hdom Hm Hop)
-    | apply (link_geom_merge c Hdom Hm Hop) | apply (link_jaccard_stream c Hdom Hm Hop) | apply (link_forbes_stream c Hdom Hm Hop) ].
+    | apply (link_geom_merge c Hdom Hm Hop) | apply (link_jaccard_stream c Hdom Hm Hop) | apply (link_forbes_stream c Hdom Hm Hop)
+    | apply (link_jaccard_genome c Hdom Hm Hop) | apply (link_forbes_genome c Hdom Hm Hop) ].
 Qed.
 
 (* history: the stream route as it was before a68b397 raised on an interval set without entries, so it could not return
